@@ -72,7 +72,7 @@ Checks(ev) ==
     [] o = "rand.fq2" -> << <<"range", Lt(Norm(ev.out.r[1]), QMod) /\ Lt(Norm(ev.out.r[2]), QMod)>> >>
     [] o \in {"rand.g1", "rand.g2"} -> LET g == IF o = "rand.g1" THEN 1 ELSE 2  P == JacPt(g, ev.out.r) IN
          << <<"non-identity", P # <<>>>>, <<"on-curve", OnC(g, P)>>, <<"in-subgroup", InSub(g, P)>> >>
-    [] o = "rand.powx" ->
+    [] o \in {"rand.powx", "rand.zpstar_px"} ->
          LET c == [i \in 1..4 |-> Norm(ev.out.c[i])]
              x == XAbs
              y == Add(Add(c[1], Mul(c[2], x)), Add(Mul(c[3], Mul(x, x)), Mul(c[4], Mul(x, Mul(x, x)))))
